@@ -553,7 +553,90 @@ theorem gen_str_write_char (b : Bytes) (c : Char) : finU (Gen.Fn.str_write_char 
   obtain ⟨s', o⟩ := r
   cases o <;> simp_all [RsS.bind, finU]
 
+/-! ## `from_utf16_in`: std's `decode_utf16`, then push until the first error -/
+
+theorem u16_loop_some (c : Char) (rest : List (Option Char)) (s : SB) :
+    Gen.Fn.str_from_utf16_in.loop (some c :: rest) s =
+      Gen.Fn.str_from_utf16_in.loop rest (text s ++ encChar c, s.2 + (encChar c).length) := by
+  conv => lhs; unfold Gen.Fn.str_from_utf16_in.loop
+  simp only [push_any, RsS.bind]
+theorem u16_loop_none (rest : List (Option Char)) (s : SB) :
+    Gen.Fn.str_from_utf16_in.loop (none :: rest) s = (s, .err) := by
+  conv => lhs; unfold Gen.Fn.str_from_utf16_in.loop
+theorem u16_loop_nil (s : SB) : Gen.Fn.str_from_utf16_in.loop [] s = (s, .ok ()) := by
+  conv => lhs; unfold Gen.Fn.str_from_utf16_in.loop
+
+theorem dec16_nil (f : Nat) : RsS.decodeUtf16Fuel f [] = [] := by cases f <;> rfl
+theorem from16_nil (f : Nat) (acc : Bytes) : fromUtf16Fuel f [] acc = .ok acc := by cases f <;> rfl
+
+/-- the result of the translated function read as the model's outcome -/
+def u16View (r : SB × Outcome Unit) : Outcome Bytes :=
+  match r with
+  | (s', .ok _) => .ok (text s')
+  | (_, .err) => .err
+  | (_, .panic) => .panic
+  | (_, .bad w) => .bad w
+  | (_, .envBad) => .envBad
+
+theorem from_utf16_loop : ∀ (f : Nat) (us : List Nat) (s : SB), WFS s → us.length ≤ f →
+    u16View (Gen.Fn.str_from_utf16_in.loop (RsS.decodeUtf16Fuel f us) s) = fromUtf16Fuel f us (text s) := by
+  intro f
+  induction f with
+  | zero =>
+    intro us s _ hl
+    have : us = [] := by cases us <;> simp_all
+    subst this
+    rw [dec16_nil, u16_loop_nil, from16_nil]; rfl
+  | succ f ih =>
+    intro us s hw hl
+    cases us with
+    | nil => rw [dec16_nil, u16_loop_nil, from16_nil]; rfl
+    | cons u us =>
+      have hl' : us.length ≤ f := by simpa using hl
+      unfold RsS.decodeUtf16Fuel fromUtf16Fuel
+      by_cases h1 : isSurrogate u = true
+      · rw [h1]
+        simp only [Bool.not_true, Bool.false_eq_true, if_false]
+        by_cases h2 : u ≥ 0xDC00
+        · rw [if_pos h2, if_pos h2, u16_loop_none]; rfl
+        · rw [if_neg h2, if_neg h2]
+          cases us with
+          | nil => simp only []; rw [u16_loop_none]; rfl
+          | cons u2 us' =>
+            simp only []
+            by_cases h3 : isLow u2 = true
+            · rw [h3]
+              simp only [Bool.not_true, Bool.false_eq_true, if_false]
+              rw [u16_loop_some]
+              obtain ⟨ht, hw'⟩ := text_after hw (encChar (Char.ofNat (((u - 0xD800) * 1024 + (u2 - 0xDC00)) + 0x10000)))
+              have := ih us' _ hw' (by simp at hl'; omega)
+              rw [ht] at this
+              exact this
+            · have h3' : isLow u2 = false := by simpa using h3
+              rw [h3']
+              simp only [Bool.not_false, if_true]
+              rw [u16_loop_none]; rfl
+      · have h1' : isSurrogate u = false := by simpa using h1
+        rw [h1']
+        simp only [Bool.not_false, if_true]
+        rw [u16_loop_some]
+        obtain ⟨ht, hw'⟩ := text_after hw (encChar (Char.ofNat u))
+        have := ih us _ hw' hl'
+        rw [ht] at this
+        exact this
+
+/-- `String::from_utf16_in(v)` as translated over std's `decode_utf16` is the model's `fromUtf16`: the decoded text, or `Err` at the
+first lone surrogate -/
+theorem gen_str_from_utf16_in (us : List Nat) (s0 : SB) :
+    u16View (Gen.Fn.str_from_utf16_in us s0) = fromUtf16 us := by
+  unfold Gen.Fn.str_from_utf16_in fromUtf16 RsS.decode_utf16
+  simp only [RsS.reserve, RsS.bind]
+  have hw : WFS ((text (([] : Bytes), 0) ++ List.replicate us.length 0, 0) : SB) := by unfold WFS; simp
+  have := from_utf16_loop us.length us _ hw (Nat.le_refl _)
+  simpa [text] using this
+
 #print axioms gen_str_drain
+#print axioms gen_str_from_utf16_in
 #print axioms gen_str_extend_chars
 #print axioms gen_str_extend_strs
 #print axioms gen_str_from_iter_in
